@@ -498,8 +498,9 @@ Definition maybe_commit (r : raft) : Res (raft * bool) :=
   x <- RaftLog.maybe_commit (r_log r) mci (r_term r) ;;
   let '(l', b) := x in
   if b then
+    (* a leader that has removed itself is no longer tracked *)
     match get_pr r (r_id r) with
-    | None => Panic site_self_progress
+    | None => Ok (r <| r_log := l' |>, true)
     | Some pr => Ok (put_pr (r <| r_log := l' |>) (r_id r) (update_committed pr (committed l')), true)
     end
   else Ok (r <| r_log := l' |>, false).
@@ -1189,7 +1190,7 @@ Definition on_persist_entries (r : raft) (index t : N) : Res raft :=
   let r := r <| r_log := l' |> in
   if upd && is_leader r then
     match get_pr r (r_id r) with
-    | None => Panic site_self_progress
+    | None => Ok r   (* a leader that has removed itself is no longer tracked *)
     | Some pr =>
         let '(pr', u) := maybe_update pr index in
         let r := put_pr r (r_id r) pr' in
